@@ -16,6 +16,7 @@ import (
 	"google.golang.org/genproto/googleapis/bytestream"
 	"google.golang.org/grpc/codes"
 	"google.golang.org/grpc/status"
+	"google.golang.org/protobuf/proto"
 
 	"verif/harness/internal/drv"
 	"verif/harness/internal/fe"
@@ -233,8 +234,11 @@ func RunReads(plans []ReadPlan, seed int64, tier string) (runs []ReadRun, viols 
 		seenSize := map[string]readBlob{}
 		for pi, p := range plans {
 			// real writer: chunk size 1 MiB
-			if p.N <= maxRatio*p.K && (tier == "thorough" || (pi+int(seed))%3 == 0) {
-				K := 1 << 20
+			// (and, scaled to 4 KiB, small blobs: single-chunk files, and what an uncompressed store keeps as plain files)
+			for _, K := range []int{1 << 20, 4096} {
+				if !(p.N <= maxRatio*p.K && (tier == "thorough" || (pi+int(seed)+K%5)%3 == 0)) {
+					continue
+				}
 				for _, d := range []int{-1, 0, 1} {
 					size := p.N*K/p.K + d
 					off := p.Off * K / p.K
@@ -281,6 +285,10 @@ func RunReads(plans []ReadPlan, seed int64, tier string) (runs []ReadRun, viols 
 				jobs = append(jobs, job{p, "independent", K, b, o})
 			}
 		}
+		tree, terr := buildTreeAndAction(fw, rng)
+		if terr != nil {
+			return runs, viols, terr
+		}
 		fw.Close()
 		// phase 2: restart in the reader's mode (this also loads the independent files)
 		fr, e := fe.New(fe.Opts{Dir: dir, Mode: cb.rmode, Impl: cb.impl, MaxSize: 1 << 30})
@@ -297,6 +305,11 @@ func RunReads(plans []ReadPlan, seed int64, tier string) (runs []ReadRun, viols 
 			n := checkReads(fr, j.blob, j.off, rng, bad)
 			runs = append(runs, ReadRun{Plan: j.plan, Writer: j.writer, ChunkSize: j.K, Size: len(j.blob.data), Offset: j.off, WriterMode: cb.wmode, ReaderMode: cb.rmode, Impl: cb.impl, Paths: n})
 		}
+		// further read paths over blobs: GetTree (directories as decoded messages) and fields inlined into an ActionResult
+		for _, v := range checkTreeAndInline(fr, tree, where(cb.wmode, cb.rmode, cb.impl)) {
+			viols = append(viols, v)
+		}
+		runs = append(runs, ReadRun{Writer: "real", WriterMode: cb.wmode, ReaderMode: cb.rmode, Impl: cb.impl, Paths: tree.paths, Size: tree.bytes, Offset: 1, Plan: ReadPlan{Chunks: 2}})
 		// offset == size: an error or an empty result, never bytes
 		for _, b := range seenSize {
 			got, e := bsRead(fr, fmt.Sprintf("blobs/%s/%d", b.hash, len(b.data)), int64(len(b.data)), 0)
@@ -356,4 +369,168 @@ func RunReads(plans []ReadPlan, seed int64, tier string) (runs []ReadRun, viols 
 	}
 	_ = status.Code
 	return runs, viols, nil
+}
+
+type treeFixture struct {
+	root   *pb.Digest
+	dirs   []*pb.Directory // root first
+	action string          // action digest hash
+	stdout []byte
+	stderr []byte
+	files  map[string][]byte // output path -> contents
+	paths  int
+	bytes  int
+}
+
+func where(w, r, impl string) string {
+	return fmt.Sprintf("written in %s mode, read in %s mode, %s codec", w, r, impl)
+}
+
+func putBlob(f *fe.Fixture, b []byte) (*pb.Digest, error) {
+	h := fmtw.Sha(b)
+	if err := f.Cache.Put(context.Background(), cache.CAS, h, int64(len(b)), bytes.NewReader(b)); err != nil {
+		return nil, err
+	}
+	return &pb.Digest{Hash: h, SizeBytes: int64(len(b))}, nil
+}
+
+// buildTreeAndAction stores a directory tree (root, two children, one grandchild) and an action result
+// whose stdout, stderr and output files are blobs of sizes around the chunk size.
+func buildTreeAndAction(f *fe.Fixture, rng *rand.Rand) (*treeFixture, error) {
+	t := &treeFixture{files: map[string][]byte{}}
+	f1 := drv.GenData(rng, 100+rng.Intn(50), 1)
+	f2 := drv.GenData(rng, 1<<20+1, rng.Intn(3))
+	f3 := drv.GenData(rng, 1<<20-1, 0)
+	var ds [3]*pb.Digest
+	for i, b := range [][]byte{f1, f2, f3} {
+		d, err := putBlob(f, b)
+		if err != nil {
+			return nil, err
+		}
+		ds[i] = d
+	}
+	putDir := func(d *pb.Directory) (*pb.Digest, error) {
+		b, _ := proto.Marshal(d)
+		return putBlob(f, b)
+	}
+	g := &pb.Directory{Files: []*pb.FileNode{{Name: "leaf.txt", Digest: ds[0]}}}
+	gd, err := putDir(g)
+	if err != nil {
+		return nil, err
+	}
+	// a directory message larger than one chunk: many entries
+	a := &pb.Directory{Files: []*pb.FileNode{{Name: "big.bin", Digest: ds[1]}}, Directories: []*pb.DirectoryNode{{Name: "g", Digest: gd}}}
+	for i := 0; i < 12000; i++ {
+		a.Files = append(a.Files, &pb.FileNode{Name: fmt.Sprintf("zz-file-%06d-%x", i, rng.Int63()), Digest: ds[0]})
+	}
+	ad, err := putDir(a)
+	if err != nil {
+		return nil, err
+	}
+	b := &pb.Directory{Files: []*pb.FileNode{{Name: "other.bin", Digest: ds[2], IsExecutable: true}}, Symlinks: []*pb.SymlinkNode{{Name: "l", Target: "other.bin"}}}
+	bd, err := putDir(b)
+	if err != nil {
+		return nil, err
+	}
+	root := &pb.Directory{Files: []*pb.FileNode{{Name: "top.txt", Digest: ds[0]}}, Directories: []*pb.DirectoryNode{{Name: "a", Digest: ad}, {Name: "b", Digest: bd}}}
+	rd, err := putDir(root)
+	if err != nil {
+		return nil, err
+	}
+	t.root, t.dirs = rd, []*pb.Directory{root, a, g, b}
+	t.stdout, t.stderr = f2, f1
+	t.files["out/small"], t.files["out/edge"] = f1, f3
+	ar := &pb.ActionResult{StdoutDigest: ds[1], StderrDigest: ds[0], OutputFiles: []*pb.OutputFile{{Path: "out/small", Digest: ds[0]}, {Path: "out/edge", Digest: ds[2]}},
+		ExecutionMetadata: &pb.ExecutedActionMetadata{Worker: "reads"}}
+	t.action = fmtw.Sha([]byte(fmt.Sprintf("reads-action-%d", rng.Int63())))
+	ctx, cancel := fe.Ctx()
+	defer cancel()
+	if _, err := f.AC.UpdateActionResult(ctx, &pb.UpdateActionResultRequest{ActionDigest: &pb.Digest{Hash: t.action, SizeBytes: 9}, ActionResult: ar}); err != nil {
+		return nil, err
+	}
+	t.bytes = len(f1) + len(f2) + len(f3)
+	return t, nil
+}
+
+func checkTreeAndInline(f *fe.Fixture, t *treeFixture, wh string) (viols []drv.Violation) {
+	bad := func(fm string, a ...any) {
+		viols = append(viols, drv.Violation{Prop: "C02", What: "(" + wh + ") " + fmt.Sprintf(fm, a...)})
+	}
+	// GetTree: exactly the directories of the tree, as decoded messages
+	ctx, cancel := fe.Ctx()
+	st, err := f.CAS.GetTree(ctx, &pb.GetTreeRequest{RootDigest: t.root})
+	var got []*pb.Directory
+	for err == nil {
+		var r *pb.GetTreeResponse
+		r, err = st.Recv()
+		if err == nil {
+			got = append(got, r.Directories...)
+		}
+	}
+	cancel()
+	t.paths++
+	if err != io.EOF {
+		bad("GetTree failed: %v", err)
+	} else {
+		if len(got) != len(t.dirs) {
+			bad("GetTree delivered %d directories, the tree has %d", len(got), len(t.dirs))
+		}
+		for _, want := range t.dirs {
+			found := false
+			for _, g := range got {
+				if proto.Equal(g, want) {
+					found = true
+				}
+			}
+			if !found {
+				bad("GetTree does not deliver the directory with %d files / %d subdirectories unchanged", len(want.Files), len(want.Directories))
+			}
+		}
+		if len(got) > 0 && !proto.Equal(got[0], t.dirs[0]) {
+			bad("GetTree does not start with the root directory")
+		}
+	}
+	// fields inlined into the returned ActionResult
+	for _, sel := range []struct {
+		out, errs bool
+		files     []string
+	}{{true, true, []string{"out/small", "out/edge"}}, {true, false, nil}, {false, true, []string{"out/edge"}}, {false, false, []string{"out/small"}}} {
+		ctx, cancel := fe.Ctx()
+		ar, err := f.AC.GetActionResult(ctx, &pb.GetActionResultRequest{ActionDigest: &pb.Digest{Hash: t.action, SizeBytes: 9},
+			InlineStdout: sel.out, InlineStderr: sel.errs, InlineOutputFiles: sel.files})
+		cancel()
+		t.paths++
+		if err != nil {
+			bad("GetActionResult with inlining %v/%v/%v failed: %v", sel.out, sel.errs, sel.files, err)
+			continue
+		}
+		if len(ar.StdoutRaw) > 0 && !bytes.Equal(ar.StdoutRaw, t.stdout) {
+			bad("inlined stdout has %d bytes that are not the blob's %d bytes", len(ar.StdoutRaw), len(t.stdout))
+		}
+		if len(ar.StderrRaw) > 0 && !bytes.Equal(ar.StderrRaw, t.stderr) {
+			bad("inlined stderr has %d bytes that are not the blob's %d bytes", len(ar.StderrRaw), len(t.stderr))
+		}
+		if !sel.out && len(ar.StdoutRaw) > 0 {
+			bad("stdout was inlined although not requested")
+		}
+		if sel.errs && len(ar.StderrRaw) == 0 {
+			bad("a %d byte stderr was requested inline and not inlined", len(t.stderr))
+		}
+		if ar.StdoutDigest.GetSizeBytes() != int64(len(t.stdout)) || ar.StderrDigest.GetSizeBytes() != int64(len(t.stderr)) {
+			bad("digests of stdout / stderr report sizes %d / %d, the blobs have %d / %d bytes", ar.StdoutDigest.GetSizeBytes(), ar.StderrDigest.GetSizeBytes(), len(t.stdout), len(t.stderr))
+		}
+		for _, of := range ar.OutputFiles {
+			want := t.files[of.Path]
+			if len(of.Contents) > 0 && !bytes.Equal(of.Contents, want) {
+				bad("inlined output file %s has %d bytes that are not the blob's %d bytes", of.Path, len(of.Contents), len(want))
+			}
+			if of.Digest.GetSizeBytes() != int64(len(want)) {
+				bad("output file %s reports size %d, the blob has %d bytes", of.Path, of.Digest.GetSizeBytes(), len(want))
+			}
+			if has(sel.files, of.Path) && len(want) < 1000 && len(of.Contents) == 0 {
+				bad("the small output file %s was requested inline and not inlined", of.Path)
+			}
+		}
+	}
+	return viols
 }
